@@ -689,6 +689,41 @@ def gen_hdr_sizes(tier, rng):
     return cases
 
 
+def gen_strfuncs(tier, rng):
+    """the three token helpers of mhd_str.c that the response code relies on (model copy in ReplyStr.lean):
+    bounded-exhaustive strings over a separator-heavy alphabet"""
+    lines = []
+    alpha = [b"a", b"B", b",", b" ", b"\t"]
+    L = 6 if tier == "thorough" else 5
+    for n in range(0, L + 1):
+        for combo in itertools.product(alpha, repeat=n):
+            sv = b"".join(combo)
+            for tok in (b"a", b"ab", b"Ba"):
+                lines.append("rt %s %s" % (hx(sv), hx(tok)))
+                if sv:
+                    lines.append("ht %s %s" % (hx(sv), hx(tok)))
+    # in-place removal: normalised strings (as the response code stores them) x arbitrary token arguments
+    toks = [b"a", b"ab", b"B", b"a b", b"close", b"x"]
+    norms = []
+    for k in range(1, 4):
+        for combo in itertools.product(toks, repeat=k):
+            norms.append(b", ".join(combo))
+    args = []
+    for n in range(0, 5 if tier == "thorough" else 4):
+        for combo in itertools.product([b"a", b"b", b",", b" ", b"B"], repeat=n):
+            args.append(b"".join(combo))
+    args += [b"close", b"Close , x", b"a b", b"a  b", b"x,close", b"ab,a", b"\tab\t,\ta"]
+    for nv in norms:
+        for av in args:
+            lines.append("rts %s %s" % (hx(nv), hx(av)))
+    for sv in (b"close", b"foo, close", b"Close ,keep-alive", b"keep-alive", b"close   x", b"clo se", b"a,,b", b" a , b ",
+               b"clo,close", b"upgrade", b"Upgrade, foo", b"x upgrade", b"upgradex, upgrade"):
+        for tok in (b"close", b"keep-alive", b"upgrade"):
+            lines.append("rt %s %s" % (hx(sv), hx(tok)))
+            lines.append("ht %s %s" % (hx(sv), hx(tok)))
+    return [Case("raw", lines[i:i + 5000], None) for i in range(0, len(lines), 5000)]
+
+
 QR_CODES = (0, 99, 100, 101, 102, 199, 200, 204, 299, 304, 999, 1000, ICY | 200, ICY | 99, ICY | 101, (1 << 32) - 1)
 
 
@@ -794,6 +829,7 @@ def judge_x(c, out):
     x = c.meta
     specs = []
     k = 0
+    first = None
     for kind, flags, calls, code in x["resp"]:
         rs = resp_state(kind)
         if out[k] != "ok":
@@ -801,13 +837,18 @@ def judge_x(c, out):
         k += 1
         for call in ([("opt", flags, None)] if flags is not None else []) + list(calls):
             e = rs.step(call, out[k])
-            if e:
+            if e and e.startswith("flags_auto"):
+                first = first or "after %r: %s" % (call, e)   # keep going: the wire image is the stronger witness
+            elif e:
                 return "after %r: %s" % (call, e)
             k += 1
         specs.append((rs, code))
     xx = dict(x)
     xx["specs"] = specs
-    return check_exchange(xx, out[k])
+    e = check_exchange(xx, out[k])
+    if e and first:
+        return e + "  [response object: " + first + "]"
+    return e or first
 
 
 # ------------------------------------------------------------------ runner / Spec
@@ -821,18 +862,23 @@ def _sig(s):
 class Spec:
     props_module = "Mhd.Props.C04"
     lean_targets = ["Mhd.Props.C04", "drv_reply"]
-    required_theorems = ["Mhd.C04.call_preserves_inv", "Mhd.C04.calls_preserve_inv"]
+    required_theorems = ["Mhd.C04.call_preserves_inv", "Mhd.C04.calls_preserve_inv", "Mhd.C04.reply_wellFramed",
+                         "Mhd.C04.one_body_delimitation", "Mhd.C04.no_body_when_forbidden",
+                         "Mhd.C04.user_headers_verbatim", "Mhd.C04.close_announced", "Mhd.C04.continue_only_when_asked"]
     trusted_base = ["Lean 4 kernel", "axioms: propext, Classical.choice, Quot.sound at most (audited per theorem)",
                     "hand-written model lean/Mhd/Model/{ReplyStr,Resp,Reply,ReplyWire}.lean tied to response.c / connection.c by this run's correspondence",
-                    "the response grammar lean/Mhd/Proofs/ReplyGrammar.lean (WellFramed) and its independent Python twin in tools/props/C04.py",
+                    "the response grammar lean/Mhd/Proofs/ReplyGrammar.lean (WellFramed, parseReply) and its independent Python twin parse_reply in tools/props/C04.py",
                     "tools/props/C04.py gen_reply (flag bits, enum values, reason phrases, header names regenerated)",
                     "harness/h_reply.c, gcc, ASan/UBSan"]
     assumptions = ["no allocation failure inside the response API (C07 covers those)",
-                   "response flags without MHD_RF_INSANITY_HEADER_CONTENT_LENGTH",
-                   "header names given to the API are HTTP tokens (MHD only rejects TAB, SP, CR, LF), an application "
-                   "Content-Length value (HEAD-only responses) is a decimal number, footers are not named like the framing headers",
-                   "the content callback returns no more than requested and ends a known-size body exactly at its size",
-                   "a response object is not modified while it is queued; non-TLS connection"]
+                   "response flags without MHD_RF_INSANITY_HEADER_CONTENT_LENGTH (Call.Legal: opt without the insanity bit)",
+                   "Call.Legal: header / footer names given to the API contain no ':' (MHD itself rejects only TAB, SP, CR, LF and "
+                   "the empty name), an application Content-Length value (possible on HEAD-only responses) is 1*DIGIT",
+                   "SrcLegal: the content callback returns non-empty pieces no larger than the space offered, ends with "
+                   "END_OF_STREAM and delivers exactly total_size bytes when the size is known; buffer responses have total_size bytes",
+                   "the reply is sent completely (header block fits the write buffer of >= 128 bytes, no socket error): "
+                   "otherwise the daemon aborts the connection, which C07 covers",
+                   "a response object is not modified while it is queued; non-TLS connection; single reply per request except after 102"]
 
     def gen(self, ctx):
         gen_reply()
@@ -877,9 +923,14 @@ class Spec:
                                              herr[-2500:], sub[-1].lines, engine))
                 break
             bad = sub[done]
+            crash_line = len(hout) - k            # index (inside the case) of the line that was not answered
+            bad_lines = bad.lines[:max(crash_line, 0) + 1]
+            if bad.kind == "raw" and len(bad_lines) > 12:   # keep the object-building prefix and the crashing line
+                pre = [l for l in bad_lines[:-1] if l.split()[0] in ("new", "add", "del", "foot", "opt")]
+                bad_lines = pre + bad_lines[-1:]
             m = re.search(r"(ERROR: \w+Sanitizer: [\w-]+|runtime error: [^\n]{0,80}|SEGV[^\n]{0,40})", herr)
             failures.append(vlib.Failure("sanitizer", "reply: harness aborted in %s case: %s" % (bad.kind, _sig(m.group(1) if m else "rc=%d" % hrc)),
-                                         herr[-2500:], bad.lines, engine))
+                                         herr[-2500:], bad_lines, engine))
             outs.append(None)
             start += done + 1
             crashes += 1
@@ -941,6 +992,7 @@ class Spec:
                  ("decisions", gen_decisions(ctx.tier)),
                  ("queue", gen_queue(ctx.tier, ctx.rng)),
                  ("hdr_sizes", gen_hdr_sizes(ctx.tier, ctx.rng)),
+                 ("strfuncs", gen_strfuncs(ctx.tier, ctx.rng)),
                  ("sequences", gen_sequences(ctx.tier, ctx.rng)),
                  ("exchanges", gen_exchanges(ctx.tier, ctx.rng) * 1)]
         if boost:
@@ -972,14 +1024,22 @@ class Spec:
                             mm = re.match(rb"^(?:HTTP/1\.1 100 Continue\r\n\r\n)?\S+ (\d{3}) ", w)
                             if mm:
                                 xstats["codes"].add(int(mm.group(1)))
-                if len(failures) - n0 > 40:
+                # keep at most a few failures per signature, stop a part only when it is hopeless
+                seen = {}
+                kept = []
+                for f in failures:
+                    seen[f.signature] = seen.get(f.signature, 0) + 1
+                    if seen[f.signature] <= 3:
+                        kept.append(f)
+                failures[:] = kept
+                if len(seen) > 60:
                     break
             sizes[name] = len(cases)
             ctx.note("%s: %d cases, %d failures so far" % (name, len(cases), len(failures)))
         nlines = sum(sizes.values())
         dec = sizes.get("decisions", 0)
         evals = (dec - 10 - 308) * 1024 + 10 * 900 + 308 + sum(v for k, v in sizes.items() if k != "decisions")
-        seqs = [c for c in parts[4][1]]
+        seqs = [c for c in dict(parts)["sequences"]]
         distinct = len({"\n".join(c.lines) for n, cs in parts for c in cs})
         alpha = seq_alphabet(ctx.tier)
         cov = {"evaluations": evals, "distinct_nontrivial": distinct,
@@ -996,30 +1056,92 @@ class Spec:
                    "MHD_queue_response": "per response kind/flags: upgrade-allowed(2) x http_ver(7) x method(10) x 16 status codes incl. out-of-range and ICY; state/queued/shutdown on a sub-grid"},
                "bounded_exhaustive": {"response API call sequences": "all sequences of length <= %d over %d calls x 4 response kinds (2 kinds at length 4), each followed by build_header_response / footer probes" % (
                    4 if ctx.tier == "thorough" else 3, len(alpha)),
-                   "build_header_response buffer sizes": "every buffer size 0..199 for 5 responses x 4 connection settings; footer sizes 0..39"},
+                   "build_header_response buffer sizes": "every buffer size 0..199 for 6 responses x 4 connection settings; footer sizes 0..39",
+                   "mhd_str token helpers (remove_token, remove_tokens, has_token)": "all strings up to length %d over {a,B,comma,space,tab} x 3 tokens; all normalised values of <=3 tokens x all token arguments up to length %d" % (
+                       6 if ctx.tier == "thorough" else 5, 4 if ctx.tier == "thorough" else 3)},
                "random": {"exchanges": sizes.get("exchanges", 0)},
                "case_counts": sizes,
                "exchange_distribution": {"framing": xstats["framing"], "status_codes_seen": len(xstats["codes"]),
                                          "closed": xstats["closed"], "kept_alive": xstats["open"], "queue_refused": xstats["refused"]},
                "outcomes": {k: v for k, v in stats.items()},
-               "samples": [parts[5][1][7].lines if len(parts[5][1]) > 7 else [], seqs[len(seqs) // 2].lines if seqs else []]}
+               "samples": [dict(parts)["exchanges"][7].lines if len(dict(parts)["exchanges"]) > 7 else [],
+                           seqs[len(seqs) // 2].lines if seqs else []]}
         return failures, cov
+
+
+def case_from_lines(lines):
+    """rebuild the judged form of a stored script (so that a replay also runs the oracle)"""
+    def kind_of(w):
+        if w[2] == "buf":
+            return ("buf", int(w[3]))
+        if w[2] == "cb":
+            return ("cb", "u" if w[3] == "u" else int(w[3]), [] if w[4] == "-" else [int(x) for x in w[4].split(",")], w[5])
+        if w[2] == "empty":
+            return ("empty", int(w[3]))
+        return ("upg",)
+
+    def call_of(w):
+        if w[0] == "opt":
+            return ("opt", int(w[2]), None)
+        return (w[0], unhx(w[2]), unhx(w[3]))
+    ws = [l.split() for l in lines]
+    if len(ws) == 1 and ws[0][0] in ("rb", "kp", "sp", "n100"):
+        w = ws[0]
+        if w[0] == "rb":
+            return Case("rb", lines, int(w[1]))
+        if w[0] == "kp":
+            return Case("kp", lines, tuple(int(x) for x in w[1:]))
+        if w[0] == "sp":
+            return Case("sp", lines, tuple(int(x) for x in w[1:8]) + (w[8], int(w[9])))
+        return Case("n100", lines, (int(w[1]), int(w[2]), None if w[3] == "none" else unhx(w[3])))
+    if ws and ws[-1][0] == "x" and all(w[0] in ("new", "add", "del", "foot", "opt", "x") for w in ws) and \
+            sum(1 for w in ws if w[0] == "x") == 1:
+        slots = {}
+        for w in ws[:-1]:
+            sl = int(w[1])
+            if w[0] == "new":
+                slots[sl] = [kind_of(w), None, []]
+            elif sl in slots:
+                slots[sl][2].append(call_of(w))
+        xw = ws[-1]
+        specs = [(int(a), int(b)) for a, b in (p.split(":") for p in xw[7].split(","))]
+        order = sorted(slots)
+        if [sl for sl, _ in specs] == order:
+            resp = [(slots[sl][0], None, slots[sl][2], code) for sl, code in specs]
+            return Case("x", lines, {"mthd": xw[1], "ver": int(xw[2]), "conn": None if xw[3] == "none" else unhx(xw[3]),
+                                     "expect": None if xw[4] == "none" else unhx(xw[4]), "up": int(xw[5]),
+                                     "early": int(xw[6]), "resp": resp})
+    if ws and ws[0][0] == "new" and all(w[0] in ("add", "del", "foot", "opt", "hdr", "foot?") for w in ws[1:]):
+        calls = [call_of(w) for w in ws[1:] if w[0] in ("add", "del", "foot", "opt")]
+        probes = [tuple(int(x) for x in w[2:12]) for w in ws[1:] if w[0] == "hdr" and w[12] == "4096"]
+        n_tail = sum(1 for w in ws[1:] if w[0] in ("hdr", "foot?"))
+        if len(probes) + sum(1 for w in ws if w[0] == "foot?") == n_tail and \
+                all(w[0] in ("hdr", "foot?") for w in ws[1 + len(calls):]):
+            return Case("seq", lines, (kind_of(ws[0]), calls, probes))
+    return Case("raw", lines, None)
 
 
 def replay(ctx, path):
     r = json.load(open(path))
     sp = Spec(); sp.gen(ctx); vlib.lake_build(sp.lean_targets); sp.build(ctx)
-    lines = r["input"]
-    hout, hrc, herr = vlib.run_lines(sp.harness, lines)
-    mout, mrc, merr = vlib.run_lines(sp.driver, lines)
-    bad = 0
-    for i, l in enumerate(lines):
-        h = hout[i] if i < len(hout) else "<no output, rc=%d>" % hrc
-        m = mout[i] if i < len(mout) else "<none>"
-        print("%s\n   code : %s\n   model: %s" % (l, h[:1000], m[:1000]))
-        bad += h != m
-    if lines and lines[-1].startswith("x "):
-        print("oracle: see detail in the replay file: " + r.get("detail", "")[:500])
-    if hrc != 0:
-        print(herr[-1500:])
-    return 1 if (bad or hrc != 0 or r.get("kind") == "oracle") else 0
+    lines = r.get("input") or []
+    if not lines:
+        print("this replay names a proof obligation / correspondence that no longer checks, not a script:")
+        print(json.dumps(r.get("no_longer_checks"), indent=1)[:3000])
+        return 1
+    c = case_from_lines(lines)
+    fl, st = [], {"cases": 0, "oracle_rejects": 0, "diffs": 0}
+    pairs = sp.run_cases([c], fl, "reply")
+    for cc, ho, mo in pairs:
+        for i, l in enumerate(lines):
+            h = ho[i] if ho is not None and i < len(ho) else "<no output: harness aborted>"
+            m = mo[i] if i < len(mo) else "<none>"
+            print("%s\n   code : %s\n   model: %s" % (l[:300], h[:1200], m[:1200]))
+    sp.judge(pairs, fl, st, "reply")
+    print("verdicts: sanitizer=%s oracle=%s model-vs-code=%s" % (
+        "ABORT" if any(f.kind == "sanitizer" for f in fl) else "clean",
+        "REJECT" if any(f.kind == "oracle" for f in fl) else ("accept" if c.kind != "raw" else "n/a (raw script)"),
+        "DIFFER" if any(ho is not None and ho != mo for cc, ho, mo in pairs) else "agree"))
+    for f in fl:
+        print(f.kind, "|", f.signature, "|", f.detail[:800])
+    return 1 if fl else 0
